@@ -47,18 +47,16 @@ func (o *Omni) attackerKeys(sender int) [][]byte {
 		for si, c := range s.Sess {
 			last := si == len(s.Sess)-1 && (s.Peer.Encrypted || s.Peer.Finished)
 			for oi := uint32(1); oi <= 60; oi++ {
-				our, ok := c.Ours[oi]
-				if !ok {
+				if _, ok := c.Ours[oi]; !ok {
 					continue
 				}
 				for ti := uint32(1); ti <= 60; ti++ {
-					th, ok := c.Theirs[ti]
+					k, ok := c.PairKeys(oi, ti)
 					if !ok {
 						continue
 					}
 					retired := !last || oi+1 < s.Peer.OurKeyID || ti+1 < s.Peer.TheirKeyID
 					if retired {
-						k := refotr.DeriveDataKeys(our.Priv, our.Pub, th)
 						add(k.SendMAC)
 						add(k.RecvMAC)
 					}
